@@ -9,7 +9,7 @@ open PvModel PvModel.MkrSup PvModel.Ledger PvProofs.LedgerSum
 theorem status_le_destroyed (a : Status) : a ≤ .destroyed := by
   cases a <;> decide
 
-theorem keeps_of_bank (s : State) (b : Ledger) (d : Denom) : KeepsAlive s { s with bank := b } d := by
+theorem keeps_of_bank (s : State) (b : Bank) (d : Denom) : KeepsAlive s { s with bank := b } d := by
   intro m m' hm hm' hd
   have : s.find d = some m' := hm'
   rw [hm] at this; cases this; exact hd
@@ -43,7 +43,7 @@ theorem addMarker_post {s s' : State} {r : AddReq} (h : addMarker s r = .ok s') 
     simp only [bind_ok, pure_ok] at h
     obtain ⟨b, hb, rfl⟩ := h
     have hb' : adjustCirculation s.bank r.denom r.amt = .ok b := hb
-    exact Post.of_set_bank rfl (hmono _) (fun d' hd' => adjust_supply_ne hb' hd') (adjust_nonneg hb')
+    exact Post.of_set_bank rfl (hmono _) (fun d' hd' => adjust_supply_ne hb' hd') (adjust_nonneg hb') (adjust_cons hb')
       (fun _ _ _ => (adjust_supply hb').symm) (fun _ => Or.inl habs)
   · rw [if_neg hact] at h
     simp only [pure_ok] at h
@@ -84,7 +84,7 @@ theorem activateMarker_post {s s' : State} {c : Addr} {d : Denom} (h : activateM
   have hm' := getMarker_ok hm
   have hst' : m.status = .finalized := by simpa using hst
   have hle : m.status ≤ Status.active := by rw [hst']; decide
-  refine Post.of_set_bank (m' := m.setStatus .active) (show m.denom = d from find_denom hm') ?_ (fun d' hd' => adjust_supply_ne hb hd') (adjust_nonneg hb) ?_ ?_
+  refine Post.of_set_bank (m' := m.setStatus .active) (show m.denom = d from find_denom hm') ?_ (fun d' hd' => adjust_supply_ne hb hd') (adjust_nonneg hb) (adjust_cons hb) ?_ ?_
   · intro m0 hm0
     rw [hm'] at hm0; cases hm0
     exact hle
@@ -163,13 +163,13 @@ theorem withdrawCoins_post {s s' : State} {c t : Addr} {d : Denom} {cs : Coins}
     (h : withdrawCoins s c t d cs = .ok s') : Post s s' d := by
   simp only [withdrawCoins, bind_ok, check_ok, pure_ok] at h
   obtain ⟨_, _, m, _, _, _, _, _, _, _, _, _, b, hb, rfl⟩ := h
-  exact Post.of_move (send_supply hb) (send_nonneg hb)
+  exact Post.of_move (send_supply hb) (send_nonneg hb) (send_cons hb)
 
 theorem transferCoin_post {s s' : State} {a f t : Addr} {d : Denom} {n : Int}
     (h : transferCoin s a f t d n = .ok s') : Post s s' d := by
   simp only [transferCoin, bind_ok, check_ok, pure_ok] at h
   obtain ⟨_, _, m, _, _, _, _, _, _, _, _, _, _, _, _, _, _, _, b, hb, rfl⟩ := h
-  exact Post.of_move (send_supply hb) (send_nonneg hb)
+  exact Post.of_move (send_supply hb) (send_nonneg hb) (send_cons hb)
 
 theorem cancelMarker_post {s s' : State} {c : Addr} {d : Denom} (h : cancelMarker s c d = .ok s') :
     Post s s' d := by
@@ -263,7 +263,7 @@ theorem govSupplyIncrease_post {s s' : State} {au : Addr} {d : Denom} {n : Int} 
       split at h
       · simp only [bind_ok, pure_ok] at h
         obtain ⟨b, hb, rfl⟩ := h
-        exact h1.trans (Post.of_move (send_supply hb) (send_nonneg hb)) (Or.inl (keeps_of_bank _ _ _))
+        exact h1.trans (Post.of_move (send_supply hb) (send_nonneg hb) (send_cons hb)) (Or.inl (keeps_of_bank _ _ _))
       · simp only [pure_ok] at h
         subst h
         exact h1
@@ -296,7 +296,7 @@ theorem govChangeStatus_post {s s' : State} {au : Addr} {d : Denom} {st : Status
     simp only [if_true] at hb1
     simp only [show ¬ (Status.active = Status.destroyed) by decide, if_false, pure_ok] at hb2
     subst hb2
-    exact Post.of_set_bank hd hmono (fun d' hd' => adjust_supply_ne hb1 hd') (adjust_nonneg hb1)
+    exact Post.of_set_bank hd hmono (fun d' hd' => adjust_supply_ne hb1 hd') (adjust_nonneg hb1) (adjust_cons hb1)
       (fun _ _ _ => (adjust_supply hb1).symm) (fun hdes => by simp [Marker.setStatus] at hdes)
   · simp only [hact, if_false, pure_ok] at hb1
     subst hb1
@@ -305,7 +305,7 @@ theorem govChangeStatus_post {s s' : State} {au : Addr} {d : Denom} {st : Status
     · subst hdes
       simp only [if_true, bind_ok, check_ok] at hb2
       obtain ⟨_, _, hb2⟩ := hb2
-      refine Post.of_set_bank hd hmono (fun d' hd' => adjust_supply_ne hb2 hd') (adjust_nonneg hb2)
+      refine Post.of_set_bank hd hmono (fun d' hd' => adjust_supply_ne hb2 hd') (adjust_nonneg hb2) (adjust_cons hb2)
         (fun _ ha _ => absurd ha hna) (fun _ => ?_)
       -- `AdjustCirculation(…, 0)` succeeded: the marker account held the whole supply (or it was ≤ 0)
       right; unfold Escrowed
@@ -326,7 +326,7 @@ theorem govWithdrawEscrow_post {s s' : State} {au : Addr} {d : Denom} {t : Addr}
     (h : govWithdrawEscrow s au d t cs = .ok s') : Post s s' d := by
   simp only [govWithdrawEscrow, bind_ok, check_ok, pure_ok] at h
   obtain ⟨_, _, _, _, _, _, b, hb, rfl⟩ := h
-  exact Post.of_move (send_supply hb) (send_nonneg hb)
+  exact Post.of_move (send_supply hb) (send_nonneg hb) (send_cons hb)
 
 theorem govSetAdministrator_post {s s' : State} {au : Addr} {d : Denom} {a : Addr} {ps : List Access}
     (h : govSetAdministrator s au d a ps = .ok s') : Post s s' d := by
@@ -346,7 +346,7 @@ theorem updateParams_post {s s' : State} {au : Addr} {mx mts : Int} {eg : Bool} 
     (h : updateParams s au mx mts eg = .ok s') : Post s s' d := by
   simp only [updateParams, bind_ok, check_ok, pure_ok] at h
   obtain ⟨_, _, rfl⟩ := h
-  exact ⟨fun _ _ => rfl, fun _ _ => rfl, id, id, fun m hm => ⟨m, hm, status_le_refl _⟩, id,
+  exact ⟨fun _ _ => rfl, fun _ _ => rfl, id, id, id, fun m hm => ⟨m, hm, status_le_refl _⟩, id,
     fun m m' hm hm' hd => by
       have : s.find d = some m' := hm'
       rw [hm] at this; cases this; exact Or.inl hd⟩
@@ -355,7 +355,7 @@ theorem bankSend_post {s s' : State} {f t : Addr} {d : Denom} {n : Int}
     (h : bankSend s f t d n = .ok s') : Post s s' d := by
   simp only [bankSend, bind_ok, check_ok, pure_ok] at h
   obtain ⟨_, _, _, _, b, hb, _, _, rfl⟩ := h
-  exact Post.of_move (send_supply hb) (send_nonneg hb)
+  exact Post.of_move (send_supply hb) (send_nonneg hb) (send_cons hb)
 
 theorem foreignMint_post {s s' : State} {t : Addr} {d : Denom} {n : Int}
     (henv : ∀ m, s.find d = some m → ¬ (m.status = .active ∧ m.fixed = true))
@@ -363,13 +363,13 @@ theorem foreignMint_post {s s' : State} {t : Addr} {d : Denom} {n : Int}
   simp only [foreignMint, bind_ok, check_ok, pure_ok] at h
   obtain ⟨_, hn, rfl⟩ := h
   have hn' : 0 ≤ n := by simpa using hn
-  refine Post.of_bank ?_ ?_ (fun _ m hm ha hf => absurd ⟨ha, hf⟩ (henv m hm))
+  refine Post.of_bank ?_ ?_ (fun hc => consistent_mintTo hc _ _) (fun _ m hm ha hf => absurd ⟨ha, hf⟩ (henv m hm))
   · intro d' hd'
     have : ¬ (d = d') := fun e => hd' e.symm
     simp [this]
   · intro hnn a d'
     have := hnn a d'
-    simp only [Ledger.bal_credit, Coins.amountOf_cons, Coins.amountOf_nil]
+    simp only [Bank.bal_mintTo, Coins.amountOf_cons, Coins.amountOf_nil]
     split
     · split <;> omega
     · omega
@@ -380,13 +380,13 @@ theorem govDepositBurn_post {s s' : State} {f : Addr} {d : Denom} {n : Int}
   simp only [govDepositBurn, bind_ok, check_ok, pure_ok] at h
   obtain ⟨_, _, _, hfunds, _, _, rfl⟩ := h
   have hfunds' : n ≤ s.bank.bal f d := by simpa using hfunds
-  refine Post.of_bank ?_ ?_ (fun _ m hm ha hf => absurd ⟨ha, hf⟩ (henv m hm))
+  refine Post.of_bank ?_ ?_ (fun hc => consistent_burnFrom hc _ _) (fun _ m hm ha hf => absurd ⟨ha, hf⟩ (henv m hm))
   · intro d' hd'
     have : ¬ (d = d') := fun e => hd' e.symm
     simp [this]
   · intro hnn a d'
     have := hnn a d'
-    simp only [Ledger.bal_debit, Coins.amountOf_cons, Coins.amountOf_nil]
+    simp only [Bank.bal_burnFrom, Coins.amountOf_cons, Coins.amountOf_nil]
     by_cases h1 : f = a
     · by_cases h2 : d = d'
       · subst h1; subst h2; simp; omega
